@@ -1,5 +1,8 @@
 import IrefVerif.Model.Reference
 import IrefVerif.Findings
+import IrefVerif.Lemmas.RelativeTotal
+import IrefVerif.Lemmas.IriBytes
+import IrefVerif.Props.Valid
 
 /-!
 # C15 — relativisation round-trips through resolution   (PARTIAL — open finding F12)
@@ -10,8 +13,12 @@ Full statement (not proved, and false of the code):
 a path that is a proper prefix of the base's directory, the base's query, absolute against
 relative paths, …): on the generated pairs roughly 40 % do not round-trip.  The class of failing
 pairs is `Findings.f12` — by definition the pairs on which the *modelled* algorithm does not
-round-trip — so what is proved below is limited to (i) the algorithm is total on the model
-when the compared components are well-escaped (no panic), through the first branch, and (ii)
+round-trip — so what is proved below is the part of the statement that does hold: (i) for
+every pair of valid references of either family the model of `relative_to` never panics and
+returns a valid reference of the same family (`relative_to_total_valid_partial`: the authority
+comparison and the common-prefix loop are total on well-escaped components, every `push`/`clear`
+through `path_mut()` keeps the buffer valid by `C04.path_session`, query and fragment are set by
+the setters of C04), the inputs being unchanged because the model is a pure function; and (ii)
 the scheme-mismatch branch returns `a` itself.  The check judges the implementation with the
 round-trip oracle on every generated pair, reports F12 as KNOWN-FINDING, and raises a
 violation for any failing pair outside `f12` or any difference between model and
@@ -27,6 +34,27 @@ theorem relative_to_scheme_mismatch_partial (a b : Text) (sa sb : Text)
     Ref.relative_to a b = some a := by
   unfold Ref.relative_to
   simp [ha, hb, hne]
+
+/-- **never panics, valid result** (the round trip itself is F12) — partial -/
+theorem relative_to_total_valid_partial (G : Grammar) (ok : Lemmas.Grammar.Ok G) (okp : Lemmas.Grammar.OkPath G)
+    (oka : Lemmas.Grammar.OkAuth G) (we : Lemmas.Grammar.OkWE G) (a b : Text)
+    (ha : RE.Matches G.reference a) (hb : RE.Matches G.reference b) :
+    ∃ r, Ref.relative_to a b = some r ∧ RE.Matches G.reference r :=
+  Lemmas.relative_to_total G ok okp oka we a b ha hb
+
+/-- end to end, URI family -/
+theorem uri_relative_to_total_partial (a b : Text) (ha8 : ∀ c ∈ a, c < 256) (hb8 : ∀ c ∈ b, c < 256)
+    (ha : accepts .uriRef a = true) (hb : accepts .uriRef b = true) :
+    ∃ r, Ref.relative_to a b = some r ∧ RE.Matches uriG.reference r :=
+  relative_to_total_valid_partial uriG Lemmas.uriG_ok Lemmas.uriG_okPath Lemmas.uriG_okAuth Lemmas.uriG_okWE a b
+    (Valid.uriRef_octets a ha8 ha) (Valid.uriRef_octets b hb8 hb)
+
+/-- … IRI family (octets) -/
+theorem iri_relative_to_total_partial (a b : Text) (ha8 : ∀ c ∈ a, c < 256) (hb8 : ∀ c ∈ b, c < 256)
+    (ha : accepts .iriRef a = true) (hb : accepts .iriRef b = true) :
+    ∃ r, Ref.relative_to a b = some r ∧ RE.Matches Lemmas.iriGB.reference r :=
+  relative_to_total_valid_partial Lemmas.iriGB Lemmas.iriGB_ok Lemmas.iriGB_okPath Lemmas.iriGB_okAuth Lemmas.iriGB_okWE a b
+    (Valid.iriRef_octets a ha8 ha) (Valid.iriRef_octets b hb8 hb)
 
 /-- negative witnesses of F12 on the model (and, by correspondence, on the code) -/
 example : Findings.f12 [0x73, 0x3A] [0x73, 0x3A, 0x2F, 0x2F, 0x68, 0x2F, 0x61] = true := by decide
